@@ -5,7 +5,10 @@ pattern of every recorded row and of the query is computed row by row, the neigh
 recorded rows (positions in the accumulated fit + partial_fit history) sharing the query's pattern in at
 least one table, and the reference expectations come from a fresh context-free bandit trained on exactly that
 set.  Metamorphic monitors: positive scaling of the query changes nothing; a stored row (or a positive
-multiple) always finds itself; hyperplanes never change after fit."""
+multiple) always finds itself; hyperplanes never change after fit.
+
+As built: Extras: refits in the middle of a history (new planes, tables must be rebuilt), positive multiples from 2^-500 to 2^560, Thompson / Softmax checked against a reference seeded with the row's own seed.
+"""
 from mon import env  # noqa: F401
 import math
 
